@@ -150,6 +150,7 @@ func interpRun(ld *Loader, cfg *HarnessCfg, model map[string]uint64, decisions [
 		m.fixed = map[string]uint64{}
 	}
 	m.fixedDecs = decisions
+	m.trace = os.Getenv("GOSYM_TRACE") != ""
 	m.solver.Push()
 	m.runPath(entry, nil, -1, nil)
 	var fails []string
